@@ -21,7 +21,7 @@ Proved here: all-or-nothing for every seat-manager mutator and for `PlayerReserv
 modelled (`batchAdd`) and compared with the implementation on every run.
 
 **For every history** (`C03_for_every_history`, `C03_occupants`, `C03_membership_calls_cannot_panic`): starting from
-`CreateTable`, after any sequence of the 17 kinds of event of `TB.Event` — arrivals single and in batches with fixed and
+`CreateTable`, after any sequence of the 19 kinds of event of `TB.Event` — arrivals single and in batches with fixed and
 drawn seats, sit-ins, top-ups, departures, blind changes, pause/close/release/start, gate set-ups and firings (positions
 drawn or rotated), turns of the retry loop, settlement signals, settlements, the continue step, the stale auto-join
 completion — the table's seat map and player list are tight and of the configured length (`Booked`), the seat manager
@@ -231,6 +231,43 @@ points into the player list. -/
 theorem C03_for_every_history (cfg : Meta) (b : Blind) (evs : List Event) (hl : DrawsLegal (create cfg b) evs) :
     Booked (run (create cfg b) evs) ∧ Agree (run (create cfg b) evs) ∧ GidxOK (run (create cfg b) evs) :=
   run_inv3 _ evs (create_inv3 cfg b) hl
+
+/-- the state `CreateTable` leaves when it is given players is the state after a batch join on the fresh table, up to the
+status -/
+theorem createWith_eq (cfg : Meta) (b : Blind) (js : List Join) (ch : List Int) :
+    ∃ st, (createWith cfg b js ch).1 = { step (create cfg b) (.update js [] ch) with status := st } := by
+  unfold createWith createJoin
+  show ∃ st, _ = { (update (create cfg b) js [] ch).1 with status := st }
+  unfold update
+  simp only [List.isEmpty_nil, if_true]
+  cases hj : js.isEmpty with
+  | true => exact ⟨(create cfg b).status, by simp⟩
+  | false =>
+    simp only [Bool.false_eq_true, if_false]
+    cases hr : (batchAdd (create cfg b) js ch).2 with
+    | ok =>
+      simp only
+      split
+      · exact ⟨.balancing, rfl⟩
+      · exact ⟨(batchAdd (create cfg b) js ch).1.status, rfl⟩
+    | err e => exact ⟨(batchAdd (create cfg b) js ch).1.status, rfl⟩
+    | panic => exact ⟨(batchAdd (create cfg b) js ch).1.status, rfl⟩
+
+theorem inv3_status (s : State) (st : Status) (h : Inv3 s) : Inv3 { s with status := st } :=
+  ⟨h.1, ⟨h.2.1.maxSeat, h.2.1.seats, h.2.1.ids⟩, h.2.2⟩
+
+/-- **C03 — … also for a table created with players** (`CreateTable` with `JoinPlayers`, the "create-with-players" of the
+quantifier): the invariant holds right after the creation and after every history that follows -/
+theorem C03_created_with_players (cfg : Meta) (b : Blind) (js : List Join) (ch : List Int)
+    (hd : DrawLegal (create cfg b) (.update js [] ch)) (evs : List Event)
+    (hl : DrawsLegal (createWith cfg b js ch).1 evs) :
+    Booked (run (createWith cfg b js ch).1 evs) ∧ Agree (run (createWith cfg b js ch).1 evs) ∧
+      GidxOK (run (createWith cfg b js ch).1 evs) := by
+  obtain ⟨st, heq⟩ := createWith_eq cfg b js ch
+  have h0 : Inv3 (createWith cfg b js ch).1 := by
+    rw [heq]
+    exact inv3_status _ st (step_inv3 _ _ (create_inv3 cfg b) hd)
+  exact run_inv3 _ evs h0 hl
 
 /-- … spelled out: no two listed players share a seat or an id, every listed player sits on a seat of the table whose
 seat-map entry names him, and the seat manager's occupant of every seat of the table is the table's -/
